@@ -20,6 +20,11 @@ pub type EvR = Result<Option<KeyEvent>, Error>;
 pub trait ByteDev: Clone + PartialEq + Debug + Send + Sync + 'static {
     const SET: u8;
     fn fresh() -> Self;
+    /// every other public way to obtain a fresh object (`Default::default()`), with the component name the replay
+    /// interpreter builds it by
+    fn other_constructors() -> Vec<(Self, String)> {
+        vec![]
+    }
     fn feed(&mut self, b: u8) -> EvR;
     fn component() -> String;
 }
@@ -27,6 +32,9 @@ impl ByteDev for ScancodeSet1 {
     const SET: u8 = 1;
     fn fresh() -> Self {
         ScancodeSet1::new()
+    }
+    fn other_constructors() -> Vec<(Self, String)> {
+        vec![(ScancodeSet1::default(), "set1-default".into())]
     }
     fn feed(&mut self, b: u8) -> EvR {
         self.advance_state(b)
@@ -39,6 +47,9 @@ impl ByteDev for ScancodeSet2 {
     const SET: u8 = 2;
     fn fresh() -> Self {
         ScancodeSet2::new()
+    }
+    fn other_constructors() -> Vec<(Self, String)> {
+        vec![(ScancodeSet2::default(), "set2-default".into())]
     }
     fn feed(&mut self, b: u8) -> EvR {
         self.advance_state(b)
@@ -71,6 +82,33 @@ impl ByteDev for Keyboard<Echo, ScancodeSet2> {
         "kb:echo-0:set2:Map".into()
     }
 }
+
+/// The README loop: every byte goes to `add_byte` and every event it yields goes straight on to `process_keyevent`
+/// (so the event decoder's modifier state evolves while the scancode stage is observed).
+#[derive(Clone, Debug, PartialEq)]
+pub struct KbLoop<S: ScancodeSet>(pub Keyboard<Echo, S>);
+macro_rules! kbloop {
+    ($set:ty, $n:expr, $name:expr) => {
+        impl ByteDev for KbLoop<$set> {
+            const SET: u8 = $n;
+            fn fresh() -> Self {
+                KbLoop(Keyboard::new(<$set>::new(), Echo(0), HandleControl::MapLettersToUnicode))
+            }
+            fn feed(&mut self, b: u8) -> EvR {
+                let r = self.0.add_byte(b);
+                if let Ok(Some(ev)) = &r {
+                    let _ = self.0.process_keyevent(ev.clone());
+                }
+                r
+            }
+            fn component() -> String {
+                format!("kbloop:echo-0:{}:Map", $name)
+            }
+        }
+    };
+}
+kbloop!(ScancodeSet2, 2, "set2");
+kbloop!(ScancodeSet1, 1, "set1");
 
 /// feed under catch_unwind; a panic is rendered as a distinct result string
 pub fn feed_guarded<D: ByteDev>(d: &mut D, b: u8) -> Result<EvR, String> {
@@ -167,7 +205,7 @@ fn report_graph_bads<D: ByteDev>(ctx: &mut Ctx, g: &Graph<ScanSys<D>>, sys: &Sca
 /// keys seen Down, keys seen Up)
 fn lockstep_bfs<D: ByteDev>(ctx: &mut Ctx, label: &str) -> (usize, u64) {
     let sys = Arc::new(ScanSys::<D>::new());
-    let (g, sr, errs) = explore_both(sys.clone(), true, 20_000);
+    let (g, sr, errs) = explore_both(sys.clone(), true, 40_000);
     for e in errs {
         ctx.machinery(&format!("{}: {}", label, e));
     }
@@ -196,7 +234,7 @@ fn lockstep_bfs<D: ByteDev>(ctx: &mut Ctx, label: &str) -> (usize, u64) {
     }
     let expect_ctx = if D::SET == 2 { 6 } else { 3 };
     if g.capped {
-        ctx.cap_hit(label, 20_000);
+        ctx.cap_hit(label, 40_000);
     } else {
         ctx.expect(ref_ctxs.len() == expect_ctx, &format!("{}: all {} reference prefix contexts visited (saw {})", label, expect_ctx, ref_ctxs.len()));
         ctx.expect(g.edges == g.states.len() as u64 * 256, &format!("{}: transitions == states x 256", label));
@@ -492,6 +530,56 @@ fn readme_note(ctx: &mut Ctx) {
     }
 }
 
+/// Objects obtained through any other public constructor (`Default`) must behave exactly like `new()`: identical by
+/// identity, or else every stream of <= 3 bytes is answered identically by both.
+pub fn other_constructors_check<D: ByteDev>(ctx: &mut Ctx, label: &str) {
+    for (obj, comp) in D::other_constructors() {
+        if obj == D::fresh() {
+            ctx.part(&format!("{}:{}", label, comp), json!({"equal_to_new_by_identity": true}));
+            continue;
+        }
+        // behavioural comparison, all streams of <= 3 bytes
+        let mut n = 0u64;
+        let mut first_diff: Option<(Vec<u8>, String, String)> = None;
+        fn rec<D: ByteDev>(a: &D, b: &D, depth: usize, path: &mut Vec<u8>, n: &mut u64, diff: &mut Option<(Vec<u8>, String, String)>) {
+            for x in 0..=255u8 {
+                if diff.is_some() {
+                    return;
+                }
+                let (mut a2, mut b2) = (a.clone(), b.clone());
+                let (ra, rb) = (feed_guarded(&mut a2, x), feed_guarded(&mut b2, x));
+                *n += 1;
+                if ra != rb {
+                    let f = |r: &Result<EvR, String>| match r {
+                        Ok(v) => fmt_ev(v),
+                        Err(p) => p.clone(),
+                    };
+                    let mut p = path.clone();
+                    p.push(x);
+                    *diff = Some((p, f(&ra), f(&rb)));
+                    return;
+                }
+                if depth + 1 < 3 && ra.is_ok() {
+                    path.push(x);
+                    rec(&a2, &b2, depth + 1, path, n, diff);
+                    path.pop();
+                }
+            }
+        }
+        rec(&obj, &D::fresh(), 0, &mut vec![], &mut n, &mut first_diff);
+        ctx.evaluations += n;
+        if let Some((path, got, want)) = first_diff {
+            let ops: Vec<Op> = path.iter().map(|x| Op::Byte(*x)).collect();
+            ctx.violation(
+                &format!("{}/default-differs-from-new/{}", D::component(), bytes_hex(&path).replace(' ', "")),
+                &format!("{}: a decoder obtained through Default::default() answers the stream {} with {} at its last byte; one built with new() answers {}", D::component(), bytes_hex(&path), got, want),
+                Replay { parts: vec![(comp.clone(), ops.clone()), (D::component(), ops)], expected: format!("as new(): {}", want), observed_last: None },
+            );
+        }
+        ctx.part(&format!("{}:{}", label, comp), json!({"equal_to_new_by_identity": false, "stream_positions_compared": n}));
+    }
+}
+
 fn count_nontrivial(set: u8) -> u64 {
     // distinct (reference context, byte) pairs whose reference result is a key event
     let ctxs: Vec<RCtx> = if set == 2 {
@@ -518,6 +606,8 @@ pub fn c01(ctx: &mut Ctx) -> (u64, String) {
     ctx.set("readme_rows_for_keys_unknown_to_the_harness", json!(extras));
     lockstep_bfs::<ScancodeSet2>(ctx, "bfs:ScancodeSet2 x R-AUTO2");
     lockstep_bfs::<Keyboard<Echo, ScancodeSet2>>(ctx, "bfs:Keyboard::add_byte(Set2) x R-AUTO2");
+    lockstep_bfs::<KbLoop<ScancodeSet2>>(ctx, "bfs:Keyboard add_byte+process_keyevent loop (Set2) x R-AUTO2");
+    other_constructors_check::<ScancodeSet2>(ctx, "constructors");
     let depth = if ctx.thorough() { 4 } else { 3 };
     stream_tree::<ScancodeSet2>(ctx, "tree:ScancodeSet2", depth);
     stream_tree::<Keyboard<Echo, ScancodeSet2>>(ctx, "tree:Keyboard::add_byte(Set2)", if ctx.thorough() { 3 } else { 2 });
@@ -546,6 +636,8 @@ pub fn c02(ctx: &mut Ctx) -> (u64, String) {
     ctx.set("readme_rows_for_keys_unknown_to_the_harness", json!(extras));
     lockstep_bfs::<ScancodeSet1>(ctx, "bfs:ScancodeSet1 x R-AUTO1");
     lockstep_bfs::<Keyboard<Echo, ScancodeSet1>>(ctx, "bfs:Keyboard::add_byte(Set1) x R-AUTO1");
+    lockstep_bfs::<KbLoop<ScancodeSet1>>(ctx, "bfs:Keyboard add_byte+process_keyevent loop (Set1) x R-AUTO1");
+    other_constructors_check::<ScancodeSet1>(ctx, "constructors");
     let depth = if ctx.thorough() { 4 } else { 3 };
     stream_tree::<ScancodeSet1>(ctx, "tree:ScancodeSet1", depth);
     stream_tree::<Keyboard<Echo, ScancodeSet1>>(ctx, "tree:Keyboard::add_byte(Set1)", if ctx.thorough() { 3 } else { 2 });
@@ -914,6 +1006,8 @@ pub fn c07(ctx: &mut Ctx) -> (u64, String) {
     c07_graph::<ScancodeSet1>(ctx, "graph:ScancodeSet1", 1);
     c07_graph::<Keyboard<Echo, ScancodeSet2>>(ctx, "graph:Keyboard::add_byte(Set2)", 2);
     c07_graph::<Keyboard<Echo, ScancodeSet1>>(ctx, "graph:Keyboard::add_byte(Set1)", 1);
+    other_constructors_check::<ScancodeSet2>(ctx, "constructors");
+    other_constructors_check::<ScancodeSet1>(ctx, "constructors");
     let depth = if ctx.thorough() { 4 } else { 3 };
     c07_tree::<ScancodeSet2>(ctx, "difftree:ScancodeSet2", depth, 2);
     c07_tree::<ScancodeSet1>(ctx, "difftree:ScancodeSet1", depth, 1);
